@@ -198,7 +198,8 @@ class FilterRig(object):
 
     def gcode(self, cmd, extra=None):
         gcode, subcode = octo_gcode(cmd)
-        event = {"ev": "g", "in": alpha_cmd(cmd, extra), "exc": "", "shape": True}
+        event = {"ev": "g", "in": alpha_cmd(cmd, extra), "exc": "", "shape": True,
+                 "hascode": gcode is not None}
         if gcode is None:
             event.update({"res": "unchanged", "out": [], "st": alpha_state(self.state)})
             return event
